@@ -12,6 +12,7 @@ fn engines() -> Vec<(&'static [&'static str], Reg)> {
         (scn_timelock::PROPERTIES, scn_timelock::registry as Reg),
         (scn_treasury::PROPERTIES, scn_treasury::registry as Reg),
         (scn_lp::PROPERTIES, scn_lp::registry as Reg),
+        (scn_competition::PROPERTIES, scn_competition::registry as Reg),
     ]
 }
 
